@@ -249,6 +249,48 @@ def search(seed, tier, hints):
 
 
 def replay(payload):
-    common.say("replay input:", {k: v for k, v in payload.get("input", {}).items() if k != "ecc"})
-    common.say("re-run the check with the recorded seed to reproduce")
-    return 0
+    """re-runs the real tool on the recorded damaged ecc file and on a freshly generated pristine one, and judges again (files of the
+    non-victim entries must be handled alike); exit 1 if the property still fails"""
+    inp = payload.get("input", {})
+    try:
+        P = eu.Params(**inp["params"])
+        tree = {k: bytes.fromhex(v) for k, v in inp["tree"].items()}
+        new = bytes.fromhex(inp["ecc"])
+        vi, order = int(inp["victim_index"]), list(inp["order"])
+    except (KeyError, ValueError, TypeError):
+        common.say("replay file is not self-contained (trailing-garbage cases and older files): re-run the check with the recorded seed")
+        return 0
+    d = os.path.join(common.scratch(), "c08replay")
+    shutil.rmtree(d, ignore_errors=True)
+    root, ecc = os.path.join(d, "root"), os.path.join(d, "ecc.txt")
+    eu.write_tree(root, tree)
+    if eu.generate(P, root, ecc) != "0":
+        common.say("generation failed")
+        return 1
+    dmg = dict(tree)
+    for p_ in sorted(tree)[:2]:
+        if tree[p_]:
+            c = bytearray(tree[p_])
+            c[0] ^= 0x41
+            dmg[p_] = bytes(c)
+    droot = os.path.join(d, "dmg")
+    eu.write_tree(droot, dmg)
+    rc0, st0, out0, _ = eu.correct(P, droot, ecc, os.path.join(d, "out0"))
+    e2 = os.path.join(d, "vic.txt")
+    open(e2, "wb").write(new)
+    rc, st, out, _ = eu.correct(P, droot, e2, os.path.join(d, "out"))
+    bad = None
+    if rc.startswith("exception"):
+        bad = "correction did not run to completion: %s" % rc
+    else:
+        for j, p_ in enumerate(order):
+            if j != vi and out.get(p_) != out0.get(p_):
+                bad = "file %s, whose entry is intact, is not handled as with the pristine ecc file" % p_
+                break
+        if not bad and eu.read_tree(droot) != dmg:
+            bad = "an input file was modified"
+    common.say("params:", P.describe())
+    common.say("victim entry %d (%s), damage class %s: exit %s, stats %s (pristine ecc file: exit %s, stats %s)" % (
+        vi, order[vi] if vi < len(order) else "?", inp.get("damage"), rc, st, rc0, st0))
+    common.say("FAILS: %s" % bad if bad else "the property holds on this input now")
+    return 1 if bad else 0
